@@ -140,6 +140,25 @@ def search(ctx, hints):
                                                   history=f.get('history', [])[-400:])))
     res['samples'].append({'searcher': 'histories=%d evaluations=%d findings=%s' % (stats.get('histories', 0), stats.get('evaluations', 0), sorted(set(f['key'] for f in findings)))})
 
+    # concurrency clause, scenario family "block delivery" (harness/cmd/c17/delivery.go) in the plain build:
+    # submitters deliver exactly the transactions of the (large, locally unseen) block MarkExecuted is marking.
+    # Not slowed down by the race detector, so many rounds are cheap.
+    drounds = 500 if ctx.thorough() else 20
+    rc, findings, stats, err = _run_mode(ctx, binp, 'race', ['phases=delivery', 'rounds=%d' % drounds], timeout=900 if ctx.thorough() else 120)
+    if rc == 124:
+        findings.append(dict(key='concurrent-hang', desc='block-delivery schedule did not finish within the time limit',
+                             history=['mode=race phases=delivery seed=%d rounds=%d' % (ctx.seed, drounds)]))
+    elif rc != 0:
+        res['error'] = (res.get('error', '') + ' delivery run exited %d: %s' % (rc, err[-600:])).strip()
+    res['evaluations'] += stats.get('evaluations', 0)
+    res['distinct_nontrivial'] += stats.get('evaluations', 0)
+    for f in findings:
+        res['violations'].append(dict(key=f['key'], desc=f['desc'],
+                                      replay=dict(cmd='VERIF_SEED=%d harness/bin/c17search mode=race phases=delivery rounds=%d (schedule-dependent: the history line names round, variant and offending hash)' % (ctx.seed, drounds),
+                                                  history=f.get('history', []))))
+    res['delivery'] = dict(rounds=stats.get('delivery_rounds', 0), findings=sorted(set(f['key'] for f in findings)))
+    res['samples'].append({'delivery': 'rounds=%d block=200 submitters=8 findings=%s' % (stats.get('delivery_rounds', 0), sorted(set(f['key'] for f in findings)))})
+
     # concurrency clause: evidence from a -race build (schedules sampled, not proved)
     rbin, rlog = vlib.go_build(ctx, vlib.HARNESS, './cmd/c17', 'c17race', race=True)
     if not rbin:
@@ -173,7 +192,7 @@ def search(ctx, hints):
                                                   report=rep)))
     for f in findings:
         res['violations'].append(dict(key=f['key'], desc=f['desc'], replay=dict(cmd='harness/bin/c17race mode=race', history=f.get('history', []))))
-    res['race'] = dict(rounds=stats.get('rounds', 0), goroutines=stats.get('goroutines', 0), reports=len(seen))
+    res['race'] = dict(rounds=stats.get('rounds', 0), delivery_rounds=stats.get('delivery_rounds', 0), goroutines=stats.get('goroutines', 0), reports=len(seen))
     res['samples'].append({'race': 'rounds=%d goroutines=%d race-report-classes=%s' % (stats.get('rounds', 0), stats.get('goroutines', 0), sorted(seen))})
     return res
 
